@@ -113,6 +113,8 @@ struct Scenario {
     threads: Vec<Vec<Call>>,
     /// calls by the main thread while the clients run
     main_during: Vec<Call>,
+    /// threads 1.. start only after thread 0 is done, without synchronising with it
+    late_readers: bool,
 }
 
 fn gen_call(s: &mut u64, n: u64) -> Call {
@@ -140,18 +142,37 @@ fn scenario(seed: u64) -> Scenario {
     }
     let n = ref_lines(&text).len() as u64;
     let nthreads = 2 + below(&mut s, 3) as usize;
-    let mut threads = Vec::new();
+    let mut threads: Vec<Vec<Call>> = Vec::new();
     for _ in 0..nthreads {
         let k = 1 + below(&mut s, 3) as usize;
         threads.push((0..k).map(|_| gen_call(&mut s, n)).collect());
     }
-    let pre = (0..below(&mut s, 3)).map(|_| gen_call(&mut s, n)).collect();
+    // one scenario in three has the shape "one thread finishes the index, the others come late and
+    // ask right away": what a fast path that reads shared counters without the lock must survive
+    // (a late reader has not synchronised with the finisher; under weak memory it may see the
+    // counters in any coherent combination)
+    if seed % 3 == 0 {
+        threads[0] = vec![match below(&mut s, 3) {
+            0 => Call::LineCount,
+            1 => Call::GetLine(n as u32),
+            _ => Call::Lines,
+        }];
+        for t in threads.iter_mut().skip(1) {
+            let first = match below(&mut s, 4) {
+                0 | 1 => Call::LineCount,
+                2 => Call::GetLine(below(&mut s, n + 1) as u32),
+                _ => Call::Lines,
+            };
+            t.insert(0, first);
+        }
+    }
+    let pre: Vec<Call> = if seed % 3 == 0 { Vec::new() } else { (0..below(&mut s, 3)).map(|_| gen_call(&mut s, n)).collect() };
     let main_during = (0..below(&mut s, 2)).map(|_| gen_call(&mut s, n)).collect();
-    Scenario { text, pre, threads, main_during }
+    Scenario { text, pre, threads, main_during, late_readers: seed % 3 == 0 }
 }
 
 fn run(seed: u64) {
-    let Scenario { text, pre, threads, main_during } = scenario(seed);
+    let Scenario { text, pre, threads, main_during, late_readers } = scenario(seed);
     let lines = ref_lines(&text);
     let view = Arc::new(SourceView::new(text.as_str().into()));
     for c in &pre {
@@ -162,12 +183,26 @@ fn run(seed: u64) {
     }
     let barrier = Arc::new(Barrier::new(threads.len() + 1));
     let mut handles = Vec::new();
-    for calls in threads.clone() {
+    // "late readers": thread 0 raises a Relaxed flag when it is done and the others wait for it
+    // without synchronising with it (a Relaxed load gives no happens-before), which is what a
+    // caller that simply arrives later in real time looks like to the memory model
+    let go = Arc::new(std::sync::atomic::AtomicBool::new(!late_readers));
+    for (t, calls) in threads.clone().into_iter().enumerate() {
         let view = view.clone();
         let barrier = barrier.clone();
+        let go = go.clone();
         handles.push(std::thread::spawn(move || {
             barrier.wait();
-            calls.iter().map(|c| apply(&view, c)).collect::<Vec<Res>>()
+            if t > 0 {
+                while !go.load(std::sync::atomic::Ordering::Relaxed) {
+                    std::thread::yield_now();
+                }
+            }
+            let r = calls.iter().map(|c| apply(&view, c)).collect::<Vec<Res>>();
+            if t == 0 {
+                go.store(true, std::sync::atomic::Ordering::Relaxed);
+            }
+            r
         }));
     }
     barrier.wait();
